@@ -189,6 +189,12 @@ Fields == {"c", "aa", "en", "aw", "retr", "ch", "rf", "dyn", "feat", "pw", "p0",
 Fresh == [c |-> 14, aa |-> 63, en |-> 0, aw |-> 3, retr |-> 95, ch |-> 76, rf |-> 7, dyn |-> 63, feat |-> 5,
           pw |-> <<32, 32, 32, 32, 32, 32>>, p0 |-> <<231, 231, 231, 231, 231>>, p1 |-> <<194, 194, 194, 194, 194>>,
           p25 |-> <<195, 196, 197, 198>>, txa |-> <<231, 231, 231, 231, 231>>, ce |-> 0]
+\* a (new) driver object constructed on a radio that may still hold another session's configuration (MCU reset, script
+\* re-run: the chip was not power-cycled): every register the driver owns goes to its documented default, the addresses
+\* stay whatever the chip holds (they "persist until changed or power to the nRF24L01 is discontinued"), and the radio is
+\* left powered down with CE low.  This must hold for the plus and the non-plus variant (whose FEATURE/DYNPD registers are
+\* locked behind the ACTIVATE command and must end up unlocked, else every later write to them is ignored).
+Constructed(s) == [Fresh EXCEPT !.c = 12, !.p0 = s.p0, !.p1 = s.p1, !.p25 = s.p25, !.txa = s.txa]
 NoIntent == [open |-> FALSE, addr |-> <<>>]
 RetTag(c) == CASE c.op \in {"is_lna_enabled", "get_auto_ack", "get_dynamic_payloads", "ack", "allow_ask_no_ack", "power", "listen"} -> "bool"
                [] c.op \in {"get_auto_retries", "address"} -> "list"
